@@ -336,7 +336,8 @@ func (c *w2cfg) serveUpstream(rc *RunCtx, up int, network string) func(sc *simne
 				simrt.Fault("upstream_large_answer")
 			}
 			if b == 1 {
-				r.Rcode = []int{dns.RcodeServerFailure, dns.RcodeNameError, dns.RcodeRefused, dns.RcodeNotImplemented, 9}[simrt.Choose(5)]
+				// incl. 12-bit rcodes (BADVERS/BADSIG 16, BADCOOKIE 23), which only fit with an OPT
+				r.Rcode = []int{dns.RcodeServerFailure, dns.RcodeNameError, dns.RcodeRefused, dns.RcodeNotImplemented, 9, 16, 23}[simrt.Choose(7)]
 				nrec = 0
 			}
 			ttl := []uint32{0, 1, 30, 300, 3600}[simrt.Choose(5)]
@@ -360,7 +361,10 @@ func (c *w2cfg) serveUpstream(rc *RunCtx, up int, network string) func(sc *simne
 				c.upReplies = map[int]*w2upReply{}
 			}
 			c.upReplies[nonce] = upr
-			if simrt.Choose(3) != 0 {
+			if simrt.Choose(3) != 0 || r.Rcode > 0xF {
+				if r.Rcode > 0xF {
+					simrt.Fault("upstream_extended_rcode")
+				}
 				o := new(dns.OPT)
 				o.Hdr.Name, o.Hdr.Rrtype = ".", dns.TypeOPT
 				o.SetUDPSize(1232)
@@ -936,6 +940,16 @@ func (c *w2cfg) checkC03(rc *RunCtx, wq *w2query) {
 		return
 	}
 	want := rec.Resp
+	if want.Rcode > 0xF && !wq.HasOpt {
+		// A 12-bit rcode cannot be sent to a client that did not use EDNS0 (its
+		// upper bits live in the OPT record). The reply must still exist and must
+		// not look like a positive or name-error answer.
+		simrt.Probe("c03.extended_rcode_for_non_edns_client")
+		if r.Rcode == dns.RcodeSuccess || r.Rcode == dns.RcodeNameError {
+			rc.Fail("rcode_differs", "chain response has extended rcode %d, the non-EDNS client got rcode %d: %s", want.Rcode, r.Rcode, c.desc(wq))
+		}
+		return
+	}
 	if r.Rcode != want.Rcode {
 		rc.Fail("rcode_differs", "chain response rcode %d, reply rcode %d: %s", want.Rcode, r.Rcode, c.desc(wq))
 		return
